@@ -34,7 +34,12 @@ def confirm(seed):
         if rc != 0:
             res['apply_error'] = out[-400:]
             return res
-        env = dict(os.environ, PYTHONPATH=wt)
+        env = dict(os.environ, PYTHONPATH=wt, OSLO_POLICY_ROOT=wt)
+        # the demo may locate the checkout through __file__: run a copy placed at the same relative path
+        x = os.path.basename(seed)
+        os.makedirs(os.path.join(wt, '_seed', x), exist_ok=True)
+        demo = os.path.join(wt, '_seed', x, 'demo.py')
+        shutil.copy(os.path.join(seed, 'demo.py'), demo)
         rc, out = sh([PY, '-m', 'pytest', '-q', '-p', 'no:cacheprovider', '-x', '--deselect',
                       'oslo_policy/tests/test_cache_handler.py::CacheHandlerTest::test_reloading_cache_with_permission_denied'],
                      cwd=wt, env=env)
@@ -43,11 +48,11 @@ def confirm(seed):
         res['tests_ok'] = rc == 0 and res['tests_passed'] == 345
         if not res['tests_ok']:
             res['tests_tail'] = out[-600:]
-        rc1, out1 = sh([PY, os.path.join(seed, 'demo.py')], cwd=wt, env=env, timeout=600)
+        rc1, out1 = sh([PY, demo], cwd=wt, env=env, timeout=600)
         res['demo_fails_with_patch'] = rc1 != 0
         res['demo_msg'] = out1.strip()[-300:]
         sh(['git', 'checkout', '--', '.'], cwd=wt)
-        rc2, out2 = sh([PY, os.path.join(seed, 'demo.py')], cwd=wt, env=env, timeout=600)
+        rc2, out2 = sh([PY, demo], cwd=wt, env=env, timeout=600)
         res['demo_passes_without'] = rc2 == 0
         if rc2 != 0:
             res['demo_clean_msg'] = out2.strip()[-300:]
